@@ -33,6 +33,8 @@ impl Outcome {
 pub struct Obs {
     pub out: Outcome,
     pub logs: Vec<String>,
+    /// bytes that reached fd 2 during the call (only where the fd-2 capture is on; empty otherwise)
+    pub errs: String,
 }
 
 thread_local! {
@@ -56,7 +58,7 @@ pub fn install_panic_hook() {
         };
         if !IN_CATCH.with(|c| c.get()) {
             // a panic of the harness itself: make it visible (the orchestrator maps it to "inconclusive")
-            eprintln!("HARNESS-PANIC {} @ {}", msg, loc);
+            real_stderr_write(&format!("HARNESS-PANIC {} @ {}\n", msg, loc));
         }
         LAST_PANIC.with(|p| *p.borrow_mut() = Some(format!("{} @ {}", msg, loc)));
     }));
@@ -179,9 +181,124 @@ pub fn observe(rule: &Value, data: &Value) -> Obs {
     if capture_active() {
         let _ = capture_take();
     }
+    let ec = errcap_active();
+    if ec {
+        let _ = errcap_take();
+    }
     let out = call(rule, data);
     let logs = if capture_active() { capture_take() } else { vec![] };
-    Obs { out, logs }
+    let errs = if ec { errcap_take() } else { String::new() };
+    Obs { out, logs, errs }
+}
+
+// ---------------------------------------------------------------------------------------
+// fd-2 capture (C17: "its only externally visible effect is the line written by `log`").
+// Everything that reaches fd 2 is forwarded to the real stderr when it is collected, so the
+// harness's own diagnostics are not lost; what arrives *during* a call is the observation.
+// Not used in the sanitizer lanes (a report followed by an abort would stay in the scratch file).
+
+struct ErrCap {
+    fd: i32,
+    saved: i32,
+    pos: i64,
+}
+static ERRCAP: Mutex<Option<ErrCap>> = Mutex::new(None);
+static ERRCAP_ON: AtomicBool = AtomicBool::new(false);
+static REAL_STDERR: std::sync::atomic::AtomicI32 = std::sync::atomic::AtomicI32::new(2);
+
+pub fn real_stderr_write(s: &str) {
+    let fd = REAL_STDERR.load(Ordering::SeqCst);
+    unsafe {
+        let b = s.as_bytes();
+        let mut off = 0usize;
+        while off < b.len() {
+            let r = libc::write(fd, b[off..].as_ptr() as *const libc::c_void, b.len() - off);
+            if r <= 0 {
+                break;
+            }
+            off += r as usize;
+        }
+    }
+}
+
+pub fn errcap_start() -> bool {
+    if cfg!(miri) {
+        return false;
+    }
+    let mut g = ERRCAP.lock().unwrap();
+    if g.is_some() {
+        return true;
+    }
+    unsafe {
+        let name = std::ffi::CString::new("jlmon-errcap").unwrap();
+        let fd = libc::memfd_create(name.as_ptr(), 0);
+        if fd < 0 {
+            return false;
+        }
+        let saved = libc::dup(2);
+        if saved < 0 || libc::dup2(fd, 2) < 0 {
+            return false;
+        }
+        REAL_STDERR.store(saved, Ordering::SeqCst);
+        *g = Some(ErrCap { fd, saved, pos: 0 });
+    }
+    ERRCAP_ON.store(true, Ordering::SeqCst);
+    true
+}
+
+pub fn errcap_active() -> bool {
+    ERRCAP_ON.load(Ordering::Relaxed)
+}
+
+pub fn errcap_stop() {
+    let _ = errcap_take();
+    let mut g = ERRCAP.lock().unwrap();
+    if let Some(c) = g.take() {
+        ERRCAP_ON.store(false, Ordering::SeqCst);
+        unsafe {
+            libc::dup2(c.saved, 2);
+            REAL_STDERR.store(2, Ordering::SeqCst);
+            libc::close(c.saved);
+            libc::close(c.fd);
+        }
+    }
+}
+
+/// Bytes written to fd 2 since the previous call of this function (forwarded to the real stderr).
+pub fn errcap_take() -> String {
+    let mut g = ERRCAP.lock().unwrap();
+    let c = match g.as_mut() {
+        Some(c) => c,
+        None => return String::new(),
+    };
+    let mut buf: Vec<u8> = Vec::new();
+    unsafe {
+        let end = libc::lseek(c.fd, 0, libc::SEEK_END);
+        if end > c.pos {
+            let len = (end - c.pos) as usize;
+            buf.resize(len, 0);
+            let mut got = 0usize;
+            while got < len {
+                let r = libc::pread(c.fd, buf[got..].as_mut_ptr() as *mut libc::c_void, len - got, c.pos + got as i64);
+                if r <= 0 {
+                    break;
+                }
+                got += r as usize;
+            }
+            buf.truncate(got);
+            c.pos = end;
+        }
+        if c.pos > (8 << 20) {
+            libc::ftruncate(c.fd, 0);
+            libc::lseek(c.fd, 0, libc::SEEK_SET);
+            c.pos = 0;
+        }
+    }
+    let s = String::from_utf8_lossy(&buf).to_string();
+    if !s.is_empty() {
+        real_stderr_write(&s);
+    }
+    s
 }
 
 /// Per-thread CPU time in nanoseconds (bounded-termination monitor of C01).
